@@ -207,7 +207,15 @@ async def do_unwind(stack, block):
     """leave an `async with stack` block normally / by exception (or aclose); returns outcome"""
     try:
         if block is None:
-            await stack.aclose()
+            if len(getattr(stack, "_exit_callbacks", ())) % 2:
+                # closed by a caller that is itself handling some unrelated exception: still a normal unwind, every exit is
+                # told "no exception"
+                try:
+                    raise LookupError("unrelated, being handled while the stack is closed")
+                except LookupError:
+                    await stack.aclose()
+            else:
+                await stack.aclose()
         elif block == "normal":
             async with stack:
                 pass
@@ -220,6 +228,9 @@ async def do_unwind(stack, block):
     except AssertionError as e:
         # raised by the instruments themselves (e.g. the wrong protocol of a dual-protocol manager was used)
         return ("raises", -7000 - (builtins.sum(map(ord, str(e))) % 1000))
+    except BaseException as e:  # noqa
+        # an exception that is none of the block's or the exits' own: an observation all the same
+        return ("raises", -8000 - (builtins.sum(map(ord, type(e).__name__)) % 1000))
 
 
 def run_history(ops, std):
@@ -320,12 +331,27 @@ def cancellation_stage(rep, rng, n):
             async def __aexit__(s, et, ev, tb):
                 await _Tick()
                 return ent.act(log, ev)
+
+            # the resource offers the synchronous protocol as well: an ExitStack uses the asynchronous one, like `async with`
+            def __enter__(s):
+                log.append(("sync protocol used: enter", ent.id))
+                return ent.id
+
+            def __exit__(s, et, ev, tb):
+                log.append(("sync protocol used: exit", ent.id))
+                return False
         return CM()
 
     async def via_stack(ents, block, log):
         async with a.ExitStack() as st:
             for e in ents:
-                await st.enter_context(mk_cm(e, log))
+                if e.id % 2:
+                    await st.enter_context(mk_cm(e, log))
+                else:
+                    # entered by hand and handed over with push(): the same registration
+                    cm = mk_cm(e, log)
+                    await cm.__aenter__()
+                    st.push(cm)
             if block is not None:
                 raise E(block)
 
